@@ -171,7 +171,7 @@ func (n *c20namer) role(fv *ssa.FreeVar) string {
 	if cons == nil {
 		return fv.Name()
 	}
-	roles := c20roles[cons.Name()]
+	roles := c20roles[fnName(cons)]
 	var p *ssa.Parameter
 	switch b := n.fx.bindings[fv].(type) {
 	case *ssa.Parameter:
@@ -427,7 +427,7 @@ func checkC20(cx *Ctx, r *Report) {
 	// --- constructors -------------------------------------------------------
 	nCons := 0
 	for _, m := range methods {
-		if !strings.HasPrefix(m.Name(), "With") {
+		if !strings.HasPrefix(fnName(m), "With") {
 			continue
 		}
 		nCons++
@@ -439,7 +439,7 @@ func checkC20(cx *Ctx, r *Report) {
 			if cal == addStep {
 				addCalls = append(addCalls, c.(*ssa.Call))
 			} else if cal != nil && cal.Pkg == pkg {
-				other = cal.Name()
+				other = fnName(cal)
 			} else if cal == nil {
 				other = "dynamic call"
 			}
@@ -447,7 +447,7 @@ func checkC20(cx *Ctx, r *Report) {
 		if len(addCalls) == 0 {
 			// a step kind expressed through another one: `return c.WithConditionalLogicStep(always, logic, errorFunc)`
 			if d, why := c20Delegation(fx, m, methods); d != nil {
-				r.Check(why == "", "R-CHK-CONS", key, w.FnPos(m), "registers exactly one step through "+d.Name()+", whose condition is constantly true; the documented failing conditions agree", why)
+				r.Check(why == "", "R-CHK-CONS", key, w.FnPos(m), "registers exactly one step through "+fnName(d)+", whose condition is constantly true; the documented failing conditions agree", why)
 				continue
 			}
 		}
@@ -476,7 +476,7 @@ func checkC20(cx *Ctx, r *Report) {
 			arg1 = ct.X
 		}
 		mc, isMC := arg1.(*ssa.MakeClosure)
-		if !isMC || fx.path(ac.Call.Args[0]) != m.Name()+"/c" {
+		if !isMC || fx.path(ac.Call.Args[0]) != fnName(m)+"/c" {
 			r.Fail("R-CHK-CONS", key, w.InstrPos(ac), "addStep is not called on the receiver with a closure created by the constructor")
 			continue
 		}
@@ -494,7 +494,7 @@ func checkC20(cx *Ctx, r *Report) {
 func checkC20Closure(cx *Ctx, r *Report, cons, cl *ssa.Function) {
 	w, fx := cx.W, cx.Fx
 	key := w.FuncKey(cons)
-	exp, ok := c20table[cons.Name()]
+	exp, ok := c20table[fnName(cons)]
 	if !ok {
 		r.Undecided("R-CHK-COND", key, w.FnPos(cons), "step kind without a documented failing condition in the checker's table")
 		return
@@ -603,11 +603,11 @@ func checkC20Closure(cx *Ctx, r *Report, cons, cl *ssa.Function) {
 			okOnce = false
 			detail = "logic/cond closure evaluated more than once on a path"
 		}
-		if cons.Name() == "WithValueStep" && nLogic != 1 {
+		if fnName(cons) == "WithValueStep" && nLogic != 1 {
 			okOnce = false
 			detail = "value step does not run its logic exactly once"
 		}
-		if cons.Name() == "WithLogicStep" && nLogic != 1 {
+		if fnName(cons) == "WithLogicStep" && nLogic != 1 {
 			okOnce = false
 			detail = "logic step does not run its logic exactly once"
 		}
@@ -734,7 +734,7 @@ func checkC20Loop(cx *Ctx, r *Report, cf *ssa.Function) {
 		}
 		if calleeOf(cc) != nil {
 			if cal := calleeOf(cc); cal.Pkg != nil && cal.Pkg.Pkg.Path() == checkerPkg {
-				r.Fail("R-CHK-LOOP", key, w.InstrPos(cc), "CheckFailed calls "+cal.Name()+": evaluation is no longer a single pass over the steps")
+				r.Fail("R-CHK-LOOP", key, w.InstrPos(cc), "CheckFailed calls "+fnName(cal)+": evaluation is no longer a single pass over the steps")
 				return
 			}
 			continue // logging
@@ -865,7 +865,7 @@ func checkC20Loop(cx *Ctx, r *Report, cf *ssa.Function) {
 }
 
 func hasCondParam(cons *ssa.Function) bool {
-	for _, r := range c20roles[cons.Name()] {
+	for _, r := range c20roles[fnName(cons)] {
 		if r == "cond" {
 			return true
 		}
@@ -880,7 +880,7 @@ func hasCondParam(cons *ssa.Function) bool {
 func c20Delegation(fx *Facts, m *ssa.Function, methods []*ssa.Function) (*ssa.Function, string) {
 	isCons := map[*ssa.Function]bool{}
 	for _, x := range methods {
-		if strings.HasPrefix(x.Name(), "With") {
+		if strings.HasPrefix(fnName(x), "With") {
 			isCons[x] = true
 		}
 	}
@@ -917,9 +917,9 @@ func c20Delegation(fx *Facts, m *ssa.Function, methods []*ssa.Function) (*ssa.Fu
 	if fx.info(m).reachable(dc.Block(), dc.Block()) {
 		return nil, ""
 	}
-	rm, rd := c20roles[m.Name()], c20roles[d.Name()]
-	em, okm := c20table[m.Name()]
-	ed, okd := c20table[d.Name()]
+	rm, rd := c20roles[fnName(m)], c20roles[fnName(d)]
+	em, okm := c20table[fnName(m)]
+	ed, okd := c20table[fnName(d)]
 	if !okm || !okd || len(rd) != len(dc.Call.Args) {
 		return d, "step kind without a documented failing condition in the checker's table"
 	}
@@ -937,7 +937,7 @@ func c20Delegation(fx *Facts, m *ssa.Function, methods []*ssa.Function) (*ssa.Fu
 				}
 			}
 			if role != rd[i] {
-				return d, fmt.Sprintf("%s hands its %s to %s as %s", m.Name(), role, d.Name(), rd[i])
+				return d, fmt.Sprintf("%s hands its %s to %s as %s", fnName(m), role, fnName(d), rd[i])
 			}
 			continue
 		}
@@ -945,7 +945,7 @@ func c20Delegation(fx *Facts, m *ssa.Function, methods []*ssa.Function) (*ssa.Fu
 			fixed["C:cond()"] = true
 			continue
 		}
-		return d, fmt.Sprintf("argument %d of the call to %s is neither a parameter of %s nor a constantly true condition", i, d.Name(), m.Name())
+		return d, fmt.Sprintf("argument %d of the call to %s is neither a parameter of %s nor a constantly true condition", i, fnName(d), fnName(m))
 	}
 	inM := map[string]bool{}
 	for _, a := range em.atoms {
@@ -953,7 +953,7 @@ func c20Delegation(fx *Facts, m *ssa.Function, methods []*ssa.Function) (*ssa.Fu
 	}
 	for _, a := range ed.atoms {
 		if _, isFixed := fixed[a]; !inM[a] && !isFixed {
-			return d, fmt.Sprintf("%s depends on %s, which %s does not determine", d.Name(), a, m.Name())
+			return d, fmt.Sprintf("%s depends on %s, which %s does not determine", fnName(d), a, fnName(m))
 		}
 	}
 	for _, v := range valuations(em.atoms) {
@@ -965,7 +965,7 @@ func c20Delegation(fx *Facts, m *ssa.Function, methods []*ssa.Function) (*ssa.Fu
 			vd[k] = b
 		}
 		if em.fail(v) != ed.fail(vd) {
-			return d, fmt.Sprintf("for %v %s %s but the documented condition of %s (%s) says it %s", fmtVal(v), d.Name(), failWord(ed.fail(vd)), m.Name(), em.doc, failWord(em.fail(v)))
+			return d, fmt.Sprintf("for %v %s %s but the documented condition of %s (%s) says it %s", fmtVal(v), fnName(d), failWord(ed.fail(vd)), fnName(m), em.doc, failWord(em.fail(v)))
 		}
 	}
 	return d, ""
